@@ -485,6 +485,29 @@ func init() {
 		emit(allbad)
 		emit(allbad[:4096])
 		emit(allbad[:4095])
+		// valid bytes right behind the 4096*k-th ill-formed byte (the native call restarts there:
+		// the copy cursor must restart with it)
+		for _, k := range []int{1, 2} {
+			for _, gap := range []string{"a", "abc", "\u00e9x", "0123456789abcdef0123456789abcdef"} {
+				for _, pre := range []string{"", "p", "pq\xff"} {
+					b := []byte(pre)
+					n := 0
+					for _, c := range b {
+						if c == 0xff {
+							n++
+						}
+					}
+					for n < 4096*k {
+						b = append(b, 0xff)
+						n++
+					}
+					b = append(b, gap...)
+					b = append(b, 0xff, 0x80)
+					b = append(b, "tail"...)
+					emit(b)
+				}
+			}
+		}
 	})
 
 	registerGen("c20.marshal", func(g *Gen) {
